@@ -236,7 +236,14 @@ GenStmt(k) == LET r == Mix((k * 7919 + Seed * 10007 + 13) % M0, 0)
 
 ---------------------------------------------------------------------------
 (* static well-formedness (what CPython's compiler demands) *)
-RECURSIVE Irref(_), Names(_, _), NamesS(_, _, _), WFP(_)
+RECURSIVE Irref(_), Names(_, _), NamesS(_, _, _), WFP(_), Loud(_)
+\* evaluating the pattern can raise or is logged by K.E
+Loud(p) == \/ p.t = "val" /\ p.v = "K.E"
+           \/ p.t = "cls" /\ \/ p.v \in {"NotT", "Boom"} \/ (p.v = "BadMA" /\ NPos(p) > 0)
+                              \/ NPos(p) > (IF p.v \in SelfCls THEN 1 ELSE Len(ClsMA(p.v)))
+                              \/ \E i, j \in 1..Len(p.a) : i < j /\ NameAt(p, i) = NameAt(p, j)
+           \/ p.t = "map" /\ \E i, j \in 1..Len(p.ks) : i < j /\ PyEq(KeyVal(p.ks[i]), KeyVal(p.ks[j]))
+           \/ \E i \in 1..Len(p.a) : Loud(p.a[i])
 Irref(p) == \/ p.t \in {"cap", "wild"}
             \/ p.t = "as" /\ Irref(p.a[1])
             \/ p.t = "or" /\ \E i \in 1..Len(p.a) : Irref(p.a[i])
@@ -252,6 +259,9 @@ Names(p, path) == CASE p.t = "cap" -> <<"v" \o path>>
 SetOf(s) == {s[i] : i \in 1..Len(s)}
 NoDup(s) == \A i, j \in 1..Len(s) : i # j => s[i] # s[j]
 WFP(p) == /\ \A i \in 1..Len(p.a) : WFP(p.a[i])
+          \* PEP 634 leaves it open whether the other alternatives of an or-pattern that cannot fail are evaluated at all
+          \* (Cython skips them inside sequence / mapping / class patterns): such alternatives must be silent
+          /\ (p.t = "or" /\ Irref(p)) => \A i \in 1..Len(p.a) : ~Loud(p.a[i])
           /\ p.t = "or" => /\ \A i \in 1..(Len(p.a) - 1) : ~Irref(p.a[i])
                            /\ \A i \in 2..Len(p.a) : SetOf(Names(p.a[i], "")) = SetOf(Names(p.a[1], ""))
           /\ p.t = "seq" => Cardinality({i \in 1..Len(p.a) : IsStar(p.a[i])}) <= 1
